@@ -2,8 +2,15 @@
 //! properties: C18
 //! note: invoice amount field: InvoiceBuilder::amount_milli_satoshis (msat -> raw amount + largest SI prefix) and RawBolt11Invoice::amount_pico_btc (back to pico-BTC)
 //! trusted: static_slice_of: external_body wrapper for a function-local static array (its elements are taken from the source initialiser); R5: `mut self` receiver renamed (method checked as a free function); R5: InvoiceBuilder<D,H,T,C,S,M> / RawBolt11Invoice / RawHrp are self skeletons with the fields the bodies read; CreationError reduced to the variant used; R6: `.iter().find(|p| C).expect(..)` rewritten into an index loop carrying the closure body verbatim (the loop proves the expect cannot fail); R8: `.as_ref().map_or(D, |si| F)` -> match on the option (definition of Option::map_or)
+//! trusted: assume_specification for core::cmp::max / core::cmp::min (std definitions): present in every unit so that a change that introduces them is verified instead of being rejected by the tool
 use vstd::prelude::*;
 verus! {
+use vstd::std_specs::cmp::*;
+use core::cmp;
+pub assume_specification<T: core::cmp::Ord>[core::cmp::max::<T>](a: T, b: T) -> (r: T)
+    ensures T::obeys_cmp_spec() ==> r == (if b.cmp_spec(&a) == core::cmp::Ordering::Less { a } else { b });
+pub assume_specification<T: core::cmp::Ord>[core::cmp::min::<T>](a: T, b: T) -> (r: T)
+    ensures T::obeys_cmp_spec() ==> r == (if b.cmp_spec(&a) == core::cmp::Ordering::Less { b } else { a });
 //@extract lightning-invoice/src/lib.rs :: enum SiPrefix
 //@derive Clone Copy
 //@end
